@@ -98,6 +98,10 @@ pub fn sheet_text(sheet: &Value, r: &mut Rng, v: &Vary) -> String {
                               "@import \"bob's.css\";\n", "q[title='6\" nails'] { color: red }\n", "q[x=\"}\"] b { color: red }\n", "q[x=';{'] { color: red }\n", "@import '}{\"';\n",
                               "q[x=\"a\\\"b\"] { color: red }\n",
                               // blocks nested in a value / in an at-rule
+                              // a child combinator without a compound on one side: not a selector, the rule set is dropped
+                              "p > { color: #ff0000 }\n", "> b { color: #ff0000 }\n", "div > > span { color: #ff0000 }\n", "> { color: #ff0000 }\n", "* > , q { color: #ff0000 }\n", "li >{ color: #ff0000 }\n", ">em, q{ color: #ff0000 }\n",
+                              // combinators the library does not support: the rule set is dropped, not applied with another meaning
+                              "p + b { color: #ff0000 }\n", "div ~ p { color: #ff0000 }\n", "li+li { color: #ff0000 }\n", "b || i { color: #ff0000 }\n",
                               "q { a : { } }\n", "q { a : { x ; y } ; c : d }\n", "@media print { @x { q { a : [ { } ] } } }\n", "q { --v: { a: b; c: ( d ; e ) } }\n"]));
         }
         let sels: Vec<String> = rule["sels"].as_array().unwrap().iter().map(|x| selector_text(x, r, v.on)).collect();
